@@ -292,6 +292,13 @@ def solve_model(m, solver='auto'):
             m.solve(display=False)
         else:
             m.solve(solver, display=False)
+    sol_ = getattr(m, 'solution', None)
+    if sol_ is None and hasattr(m, 'rc_model'):
+        sol_ = m.rc_model.solution
+    if sol_ is not None and 'close to' in str(getattr(sol_, 'status', '')).lower():
+        # ECOS' reduced-accuracy termination (exit flag 10) is accepted by rsome as a solution, but its values are too
+        # inaccurate for the 1e-5 comparisons of the searches
+        raise SkipCase('solver terminated with reduced accuracy: ' + str(sol_.status))
     try:
         return m.get()
     except RuntimeError as e:
